@@ -112,6 +112,7 @@ pub enum Fault {
 /// Judges one altered file.  Returns true when every reader reported an error.
 pub fn judge_altered(rep: &mut Report, c: &Corpus, altered: &[u8], fault: Fault, what: &str, expect_error: bool) -> bool {
     let mut all_err = true;
+    let mut clean_samples: Option<Vec<i32>> = None;
     let mut lenient: Option<Result<Decoded, flacref::dec::Reject>> = None;
     let kinds: &[Rd] = &KINDS;
     for kind in kinds {
@@ -159,6 +160,7 @@ pub fn judge_altered(rep: &mut Report, c: &Corpus, altered: &[u8], fault: Fault,
             }
             None => {
                 all_err = false;
+                clean_samples = Some(d.samples.clone());
                 // (2) no error: the altered bytes must themselves be a valid stream that decodes to what was delivered
                 let l = lenient.get_or_insert_with(|| decode_file(altered, &ADJUDICATE));
                 match l {
@@ -172,6 +174,16 @@ pub fn judge_altered(rep: &mut Report, c: &Corpus, altered: &[u8], fault: Fault,
                             format!("{what}: {kind:?} finished without error but its output differs from what the stream defines"),
                             replay(),
                         );
+                    }
+                    Err(_) if matches!(fault, Fault::Flip(b) if checksum_collision_at(c, altered, b / 8)) => {
+                        // no reader error after a single flipped bit is only possible when the flip moved
+                        // the end of the frame onto an extent whose 16-bit checksum happens to match (the
+                        // checksum of the unchanged extent cannot survive one flipped bit).  Such a frame
+                        // passes every decoder's integrity check; that its content breaks a range rule
+                        // (over-long residual, bytes left over behind the last frame) is not something
+                        // a decoder is obliged to notice.  Counted, not a violation; a decoder that
+                        // skips the comparison is still caught on the ~99% of flips without such an extent.
+                        rep.count("outcome", "bitflip:accepted-checksum-collision-frame");
                     }
                     Err(rj) => {
                         if expect_error || !matches!(fault, Fault::MustReject) {
@@ -194,10 +206,19 @@ pub fn judge_altered(rep: &mut Report, c: &Corpus, altered: &[u8], fault: Fault,
     if c.md5_present {
         match mon::guard(|| verify_bytes(altered)) {
             Ok(Ok(Verified::MD5Match)) => {
-                let ok = match decode_file(altered, &Rules::LENIENT) {
+                // truthful iff some complete decode of the altered bytes hashes to the stored digest: the
+                // reference decoder's, or - when the altered bytes only pass by a checksum collision and
+                // the reference rejects them on a range rule - what the crate's own readers delivered
+                let stored = flacref::dec::walk_metadata(altered, false).ok().map(|(si, _, _, _)| (si.md5, si.bps as u32));
+                let by_ref = match decode_file(altered, &Rules::LENIENT) {
                     Ok(alt) => flacref::md5::md5_of_pcm(&alt.interleaved(), alt.info.bps as u32) == alt.info.md5,
                     Err(_) => false,
                 };
+                let by_readers = match (&clean_samples, stored) {
+                    (Some(s), Some((md5, bps))) => flacref::md5::md5_of_pcm(s, bps) == md5,
+                    _ => false,
+                };
+                let ok = by_ref || by_readers;
                 if !ok {
                     rep.violation(
                         "silent-accept",
@@ -274,6 +295,27 @@ fn frames_of_altered_bytes(altered: &[u8], delivered: &[i32]) -> bool {
 /// frame candidate that no decoder can tell from a real frame (a 16-bit checksum collides once
 /// per 65536 structure-changing flips; the chance that one of the ~200 candidate extents matches
 /// by accident while the crate did NOT verify the checksum is ~0.3 %).
+/// Same question for a known byte position of the damage: does the frame of the ORIGINAL file
+/// that contains byte `pos` admit, in the altered bytes, an extent whose last 16 bits are the
+/// CRC-16 of what precedes them?  A single flipped bit can never leave the checksum of the
+/// unchanged extent intact, so a "yes" means the flip moved the frame's end onto such an extent.
+fn checksum_collision_at(c: &Corpus, altered: &[u8], pos: usize) -> bool {
+    let Ok(orig) = decode_file(&c.bytes, &Rules::LENIENT) else { return false };
+    let Some(fr) = orig.frames.iter().find(|f| pos >= f.offset && pos < f.offset + f.len) else { return false };
+    collision_from(altered, fr.offset, fr.len)
+}
+
+fn collision_from(altered: &[u8], start: usize, len: usize) -> bool {
+    let max_e = (start + 2 * len + 64).min(altered.len());
+    for e in (start + 6)..=max_e {
+        let want = ((altered[e - 2] as u16) << 8) | altered[e - 1] as u16;
+        if flacref::crc::crc16(&altered[start..e - 2]) == want {
+            return true;
+        }
+    }
+    false
+}
+
 fn checksum_collision_candidate(c: &Corpus, altered: &[u8], delivered: &[i32]) -> bool {
     let Ok(orig) = decode_file(&c.bytes, &Rules::LENIENT) else { return false };
     // first frame whose samples differ
@@ -290,15 +332,7 @@ fn checksum_collision_candidate(c: &Corpus, altered: &[u8], delivered: &[i32]) -
     }
     let Some(f) = f else { return false };
     let Some(fr) = orig.frames.get(f) else { return false };
-    let start = fr.offset;
-    let max_e = (start + 2 * fr.len + 64).min(altered.len());
-    for e in (start + 6)..=max_e {
-        let want = ((altered[e - 2] as u16) << 8) | altered[e - 1] as u16;
-        if flacref::crc::crc16(&altered[start..e - 2]) == want {
-            return true;
-        }
-    }
-    false
+    collision_from(altered, fr.offset, fr.len)
 }
 
 fn fault_name(f: Fault) -> &'static str {
